@@ -375,4 +375,11 @@ theorem sendFlush_eq : Nsq.Gen.Chan.sendFlush = ([
   "assign err = client.Flush()",
   "do client.writeLock.Unlock()"] : List String) := by decide
 
+/-- C03 (seeded C03-m7): `Topic.doPause` stores the flag and then notifies the pump through a BLOCKING select — only the arms `pauseChan <- 1` and `<-exitChan`, no `default:` (a row `select-default` would appear here): `Pause()` / `UnPause()` return only when the pump has taken the notification (model: `pauseTopic` is one atomic step; behaviourally: leg `busypause`, corpus/C03/busy_pause.ops). -/
+theorem topicDoPauseSelect_eq : Nsq.Gen.Chan.topicDoPauseSelect = ([
+  "do atomic.StoreInt32(&t.paused, 1)",
+  "do atomic.StoreInt32(&t.paused, 0)",
+  "send t.pauseChan <- 1",
+  "do <-t.exitChan"] : List String) := by decide
+
 end Nsq.Tie.Chan
